@@ -6,6 +6,7 @@ import (
 	"context"
 	"errors"
 	"fmt"
+	"os"
 	"sort"
 	"strings"
 	"sync"
@@ -58,6 +59,9 @@ type groupCase struct {
 	SetupFaults []apiFault     `json:"setup_faults"` // consumed in order by matching requests
 	CloseAtEnd  bool           `json:"close_at_end"`
 	Sched       map[string]int `json:"sched"`
+	// MissingTopic: the group also subscribes to a topic that does not exist when it is joined (the ending event
+	// "topic-created" creates it: its partition count changes from none to two).
+	MissingTopic bool `json:"missing_topic,omitempty"`
 }
 
 func init() { ev.Register("group", func(tb ev.TB, c groupCase) { run(tb, c) }) }
@@ -136,6 +140,20 @@ func run(tb ev.TB, c groupCase) (labels []string, nontrivial bool) {
 	cfg := kafka.ConsumerGroupConfig{ID: group, Brokers: []string{"b1.fake:9092"}, Dialer: &kafka.Dialer{DialFunc: nw.Dial, Timeout: 2 * time.Second, ClientID: "c15"},
 		Topics: []string{topic}, HeartbeatInterval: hb, SessionTimeout: 10 * time.Second, RebalanceTimeout: 300 * time.Millisecond, JoinGroupBackoff: backoff,
 		WatchPartitionChanges: c.WatchMs > 0, PartitionWatchInterval: time.Duration(c.WatchMs) * time.Millisecond, Timeout: 2 * time.Second, StartOffset: kafka.FirstOffset}
+	if c.MissingTopic {
+		cfg.Topics = append(cfg.Topics, "later")
+	}
+	if os.Getenv("C15_LOG") != "" {
+		defer func() {
+			for _, ex := range cl.Journal() {
+				if ex.ApiKey == 3 {
+					fmt.Fprintln(os.Stderr, "META", ex.Seq, ex.ConnID, ex.Version, ex.Body["TopicNames"], ex.Outcome, ex.At.Format("05.000"))
+				}
+			}
+		}()
+		lg := kafka.LoggerFunc(func(f string, a ...interface{}) { fmt.Fprintf(os.Stderr, "LOG "+f+"\n", a...) })
+		cfg.Logger, cfg.ErrorLogger = lg, lg
+	}
 	cg, err := kafka.NewConsumerGroup(cfg)
 	if err != nil {
 		tb.Fatalf("harness: %v", err)
@@ -376,6 +394,27 @@ func run(tb ev.TB, c groupCase) (labels []string, nontrivial bool) {
 			cl.ForceRebalance(group)
 			endAt = time.Time{} // set when a heartbeat is answered with REBALANCE_IN_PROGRESS
 			lab["ended_by_rebalance"] = true
+		case "topic-created":
+			// not before the watcher of that topic has taken its baseline (a topic created earlier is no change for it)
+			deadline := time.Now().Add(time.Second)
+			for seen := false; !seen && time.Now().Before(deadline); {
+				after := int64(0)
+				for _, ex := range cl.Journal() {
+					if ex.ApiKey == 14 && ex.Body != nil && int32(ex.Body["GenerationID"].(int64)) == gen.ID && ex.Body["MemberID"] == gen.MemberID {
+						after = ex.Seq
+					}
+					if after != 0 && ex.ApiKey == 3 && ex.Seq > after && ex.Outcome == "answered" && ex.Body != nil {
+						if names, _ := ex.Body["TopicNames"].([]any); len(names) == 1 && names[0] == "later" {
+							seen = true
+						}
+					}
+				}
+				time.Sleep(500 * time.Microsecond)
+			}
+			changedAt = time.Now()
+			cl.CreateTopic("later", 2)
+			endAt = time.Time{}
+			lab["ended_by_topic_creation"] = true
 		case "partition-change", "topic-deleted":
 			baseline := false
 			if c.WatchMs > 0 {
@@ -450,6 +489,15 @@ func run(tb ev.TB, c groupCase) (labels []string, nontrivial bool) {
 				case "rebalance":
 					if ex.ApiKey == 12 && ex.RespBody != nil && ex.RespBody["ErrorCode"] == int64(27) {
 						return ex.AnsweredAt
+					}
+				case "topic-created":
+					if ex.ApiKey == 3 && ex.RespBody != nil && ex.At.After(changedAt) {
+						for _, tv := range ex.RespBody["Topics"].([]any) {
+							tm := tv.(map[string]any)
+							if tm["Name"] == "later" && len(tm["Partitions"].([]any)) > 0 {
+								return ex.AnsweredAt
+							}
+						}
 					}
 				case "topic-deleted":
 					if ex.ApiKey == 3 && ex.RespBody != nil && ex.At.After(changedAt) {
@@ -739,6 +787,17 @@ func genCase(t *rapid.T) groupCase {
 	}
 	if rapid.Bool().Draw(t, "watch") {
 		c.WatchMs = rapid.IntRange(5, 30).Draw(t, "watchMs")
+	}
+	if c.WatchMs > 0 && rapid.IntRange(0, 9).Draw(t, "missingTopic") == 0 {
+		// one generation of a group that also subscribes to a topic created only later
+		c.MissingTopic = true
+		rd := round{WaitMs: rapid.SampledFrom([]int{0, 5, 30}).Draw(t, "mtWaitMs"), End: "topic-created"}
+		for k, n := 0, rapid.IntRange(1, 3).Draw(t, "mtFns"); k < n; k++ {
+			rd.Fns = append(rd.Fns, fnSpec{Kind: "wait"})
+		}
+		c.Rounds = []round{rd}
+		c.CloseAtEnd = true
+		return c
 	}
 	nr := rapid.IntRange(1, 4).Draw(t, "rounds")
 	for i := 0; i < nr; i++ {
